@@ -413,6 +413,12 @@ pub fn build_log(log: &Log, cx: &mut Ctx) -> Stmt {
     for op in &log.ops {
         let r = apply_op(&mut s, op, cx);
         if let Err(e) = r {
+            // an INSERT row / select source that the tree rejects although the generator meant it
+            // to fit (e.g. the tree counts a select list differently): the call simply did not
+            // take effect — identically in the live build and in the replay
+            if matches!(op, Op::Ins(_)) {
+                continue;
+            }
             panic!("HARNESS: logged op failed on replay: {} ({:?})", e, op);
         }
     }
